@@ -9,7 +9,7 @@ open Gedcom.Generated.PartialOps
 /-- the totality theorems a site of class `invariant` may name (Props/C14.lean, Props/C14Ops.lean) -/
 def provedTheorems : List String :=
   ["eventDate_total", "indexLetter_total", "surnameStartsWith_total", "progress_total",
-   "multipleSexes_total", "nameParts_total", "surnameSlice_total", "jurisdictionalEntities_total", "monthAbbrev_total"]
+   "multipleSexes_total", "nameParts_total", "surnameSlice_total", "jurisdictionalEntities_total", "monthAbbrev_total", "tag_asserts_sound"]
 
 /-- a site is accounted for: it has a local guard, a named theorem, or a recorded reason -/
 def siteClassified (s : Site) : Bool :=
